@@ -171,20 +171,27 @@ def r4(ctx):
     ctx.check('fill_node|descend', sh == [' as Some).0.0 << 4)'[-12:], ' as Some).0.1 - 4)'[-12:]] or sorted(x.strip() for x in sh) == sorted(['.0.0 << 4)', '.0.1 - 4)']) or
               (len(sh) == 2 and sh[0].endswith('<< 4)') and sh[1].endswith('- 4)')) or (len(sh) == 2 and sh[1].endswith('<< 4)') and sh[0].endswith('- 4)')),
               'descending one level rewrites (value, length) as %s' % sh, sample=sh)
-    rng = [N(f.rvalue_term(s.data['rv'])) for s in f.aggregates(r'::Range$')]
-    ctx.check('fill_node|short-prefix-span', rng == ['Range{start: 0, end: (1 << (4 - len))}'], 'short prefix covers %s' % rng, sample=rng)
+    # name-free from here: the 16 buckets are the two user arrays of length 16 (found by type); everything else is compared in expanded form
+    buckets = [(lc['name'], lc['ty']) for lc in f.locals if lc.get('user') and lc.get('name') and re.search(r'; 16\]$', lc['ty'])]
+    ctx.check('fill_node|sixteen-buckets', sorted(t for _, t in buckets) == ['[&mut [(u128, u8)]; 16]', '[usize; 16]'], 'bucket arrays %s' % buckets, sample=[t for _, t in buckets])
+    sub = re.escape(([n for n, t in buckets if t.startswith('[&mut')] or ['\0'])[0])
+    SEG = r'\(Enumerate::next\(I::into_iter\(Iterator::enumerate\(slice::iter(_mut)?\(%s\)\)\)\) as Some\)\.0' % sub
+    PLEN = r'\(Option::copied\(slice::first\(%s\.1\)\) as Some\)\.0\.1' % SEG
+    rng = [S(f.rvalue_term(s.data['rv'])) for s in f.aggregates(r'::Range$')]
+    ctx.check('fill_node|short-prefix-span', len(rng) == 1 and re.match(r'^Range\{start: 0, end: \(1 << \(4 - %s\)\)\}$' % PLEN, rng[0]) is not None, 'short prefix covers %s' % rng, sample=rng)
     for s in f.aggregates(r'::Range$'):
-        ctx.guard(f, s, 'len<=4', fact_cmp('Le', r'^len$', r'^4$', names=True), key='fill_node|short-prefix|len<=4')
+        ctx.guard(f, s, 'len<=4', fact_cmp('Le', '^%s$' % PLEN, r'^4$'), key='fill_node|short-prefix|len<=4')
     rec = f.calls(r'BitTree::fill_node$')
-    ctx.check('fill_node|recursion', len(rec) == 1 and [N(a) for a in f.call_args(rec[0])] == ['self', 'segment', 'child_offset{(child_offset + 1) | child_offset}'], 'recursive call %s' % [[N(a) for a in f.call_args(x)] for x in rec], sample=len(rec))
+    ra = [[S(a) for a in f.call_args(x)] for x in rec]
+    ok = len(rec) == 1 and ra[0][0] == 'self' and re.match('^%s\\.1$' % SEG, ra[0][1]) is not None and re.match(r'^(\w+)\{\(\1 \+ 1\) \| Vec::len\(self\.nodes\)\}$', ra[0][2]) is not None
+    ctx.check('fill_node|recursion', ok, 'recursive call %s' % ra, sample=len(rec))
+    KNOWN = r'\(Vec::index_mut\(self\.nodes, node_index\)\.inset \| Vec::index_mut\(self\.nodes, node_index\)\.outset\)'
     for s in rec:
-        ctx.guard(f, s, 'undecided', fact_cmp('Eq', r'^\(known_bitmap & \(1 << i\)\)$', r'^0$', names=True), key='fill_node|recursion|only-undecided')
-    ext = [N(f.call_args(x)[1]) for x in f.calls(r'repeat_n$')]
-    cz = [N(f.call_args(x)[0]) for x in f.calls(r'num::count_zeros$')]
-    ctx.check('fill_node|children-allocated', ext == ['unknown_count'] and cz == ['known_bitmap'], 'children allocated: repeat_n(.., %s), count_zeros(%s)' % (ext, cz), sample=[ext, cz])
-    buckets = [lc['ty'] for lc in f.locals if lc.get('name') in ('counts', 'subsegments')]
-    ctx.check('fill_node|sixteen-buckets', len(buckets) == 2 and all(re.search(r'; 16\]$', t) for t in buckets), 'bucket arrays %s' % buckets, sample=buckets)
-
+        ctx.guard(f, s, 'undecided', fact_cmp('Eq', r'^\(%s & \(1 << %s\.0\)\)$' % (KNOWN, SEG), r'^0$'), key='fill_node|recursion|only-undecided')
+    ext = [S(f.call_args(x)[1]) for x in f.calls(r'repeat_n$')]
+    cz = [S(f.call_args(x)[0]) for x in f.calls(r'num::count_zeros$')]
+    ctx.check('fill_node|children-allocated', len(ext) == 1 and len(cz) == 1 and re.match('^%s$' % KNOWN, cz[0]) is not None and ext[0] == '(num::count_zeros(%s) as usize)' % cz[0],
+              'children allocated: repeat_n(.., %s), count_zeros(%s)' % (ext, cz), sample=[ext, cz])
 
 RULES = [r1, r2, r3, r4]
 FLOORS = {'C31-R1': 9, 'C31-R2': 12, 'C31-R3': 6, 'C31-R4': 20}
